@@ -172,3 +172,11 @@ Print Assumptions C19_code_recall_score.
 Theorem C19_code_precision_score : forall y p, py_precision_score (zs y) (zs p) = precision_score y p.
 Proof. exact code_precision_score. Qed.
 Print Assumptions C19_code_precision_score.
+
+Theorem C19_code_f1_score : forall y p, py_f1_score (zs y) (zs p) = f1_score y p.
+Proof. exact code_f1_score. Qed.
+Print Assumptions C19_code_f1_score.
+
+Theorem C19_code_confusion_matrix : forall y p, py_confusion_matrix (zs y) (zs p) = map zs (confusion_matrix y p).
+Proof. exact code_confusion_matrix. Qed.
+Print Assumptions C19_code_confusion_matrix.
